@@ -60,6 +60,12 @@ def c08(ctx, replay):
         "frame formats f64, f32, i16, u8, mono (bare sample) and stereo ([S; 2]); finite float samples only",
     ]
     rej, _ = pipeline(ctx, replay)
+    if ctx.tier == "thorough" and not replay:
+        from props.stream import apalache
+        apalache(ctx, "ConverterAbs", implied=["PulledIsFloor"])   # accumulator loop for ANY unit, ratio sequence, length
+        ctx.assumptions.append("Apalache inductive invariant of ConverterAbs: the accumulator loop of Converter::next in fixed point with any unit, "
+                               "any per-frame ratio sequence (>= 0) and any number of outputs: position = sum of ratios, one pull per loop "
+                               "iteration, interpolation at floor(P_n) with fraction in [0, 1)")
     ctx.add_rejections(rej)
 
 
